@@ -10,7 +10,7 @@ CFG = dict(
          "range-scan conflicts, API corner cases) then random programs of 6..25 statements in five flavours (mixed; "
          "savepoint-heavy; no savepoints; savepoints without ROLLBACK TO; mixed): BEGIN via NewTx / BEGIN TRANSACTION / "
          "read-only, INSERT (explicit id, two rows, generated id), UPSERT, UPDATE and DELETE over id ranges, SELECT by "
-         "id / range / full scan, failing statements (duplicate key, unknown table, syntax error, write in a read-only "
+         "id / range / full scan, failing statements (duplicate key, unknown table, syntax error, any write statement in a read-only "
          "tx, nested BEGIN, COMMIT/ROLLBACK/SAVEPOINT without tx, unknown savepoint), SAVEPOINT / ROLLBACK TO / RELEASE "
          "with 3 names, COMMIT, ROLLBACK, closing the session; sessions advanced one statement at a time under a "
          "schedule drawn by the harness; keys from a 7-value domain so that sessions collide. After every statement the "
@@ -27,7 +27,8 @@ CFG = dict(
          "cache warmed only by explicit autocommit read-only queries of the history) and a warm one; at random points "
          "and at the end every table name is probed from a fresh read-write transaction that is cancelled (never a "
          "read-only one: it would populate the cache) and from every open transaction: existence, columns, usable "
-         "indexes, CHECK enforced, rows; oracle: catalog at BEGIN + own DDL for open transactions, committed "
+         "indexes, CHECK enforced, rows (DDL attempted in a read-only transaction is part of the stream: fixed by "
+         "82bd2bd, a recurrence is a violation); oracle: catalog at BEGIN + own DDL for open transactions, committed "
          "transactions only for fresh ones, serial replay of a committing transaction's statements on the committed "
          "state. A DDL case is non-trivial when it executed at least one successful catalog statement. "
          "A case is non-trivial when it has an explicit transaction with >= 2 statements and (a statement of another "
